@@ -96,6 +96,34 @@ func init() {
 				k.RepMax = 12 * time.Hour
 			}
 			p := genSingle(seed, "C04", k)
+			// a reload that only lowers (and later restores) repeat_interval
+			if rng.Bool(0.3) {
+				low := clonePlan(&Plan{Configs: []*Config{p.Configs[0]}}).Configs[0]
+				f := Pick(rng, []Dur{2, 3, 5})
+				var walk func(r *Route)
+				walk = func(r *Route) {
+					if r.RepeatInterval > 0 {
+						r.RepeatInterval = r.RepeatInterval / f
+					}
+					for _, c := range r.Routes {
+						walk(c)
+					}
+				}
+				walk(low.Route)
+				fixRepeat(low.Route)
+				p.Configs = append(p.Configs, low)
+				idx := len(p.Configs) - 1
+				b := &planBuilder{p: p, used: map[Dur]bool{}}
+				for _, a := range p.Actions {
+					b.used[a.At] = true
+				}
+				at := rng.Dur(p.Horizon/6, p.Horizon/2)
+				b.add(Action{At: at, Kind: "reload", Cfg: idx})
+				if rng.Bool(0.4) {
+					b.add(Action{At: at + rng.Dur(10*time.Minute, p.Horizon/3), Kind: "reload", Cfg: 0})
+				}
+				p.SortActions()
+			}
 			return p
 		},
 		Check: func(p *Plan, r *RunResult) *Verdict {
